@@ -271,7 +271,9 @@ def main(argv=None):
                 obligations=n_obl, discharged=n_dis,
                 checker_cmd=f"./check {pid} --tier {args.tier}",
                 trusted_base=sorted(trusted | set(getattr(prop, "TRUSTED", []))),
-                explanation=getattr(prop, "EXPLANATION", ""),
+                explanation=(getattr(prop, "EXPLANATION", "") or getattr(prop, "LEVEL_TEXT", "") or
+                             "contract-based deductive verification of the functions listed under functions_under_contract; "
+                             "bounded stand-ins listed under bounded_standins are not counted as proved"),
                 functions_under_contract=funcs,
                 by_backend=by_backend, solver_time_s=round(solver_time, 3),
                 trivially_true_obligations_folded=sum(r.get("trivial", 0) for r in results),
